@@ -24,7 +24,7 @@ import DSymVerif.Model.LowIndex
 import DSymVerif.Model.Stabilizer
 import DSymVerif.Model.Invariants
 import DSymVerif.Model.Covers
-import DSymVerif.Model.CoversWired
+import DSymVerif.Model.CoversAll
 import DSymVerif.Model.Delaney2d
 import DSymVerif.Generated.Tables
 
@@ -367,14 +367,11 @@ def pseudoToroidalCover (s : DSymData) : Outcome (Option DSymData) :=
 
 /-! ### delaney2d::toroidal_cover -/
 
-/-- `covers(ds, max_deg)`: the wired model of C05 (Model/CoversWired.lean: `fundamental_group`,
-    then one `cover_for_table` per table yielded by `coset_tables`, on the model of `CosetTable`
-    itself) with the node budget of this file -/
+/-- `covers(ds, max_deg)`: the wired, fuel-free model of C05 (Model/CoversAll.lean:
+    `fundamental_group`, then one `cover_for_table` per table yielded by `coset_tables`, run with
+    C12's `searchFuel`, on the model of `CosetTable` itself) -/
 def covers (s : DSymData) (maxDeg : Nat) : Outcome (List DSymData) :=
-  match FG.fundamentalGroup s with
-  | .ok fg => Covers.covers s maxDeg (nodeFuel fg.nrGenerators maxDeg)
-  | .err => .err
-  | .panic => .panic
+  Covers.coversAll s maxDeg
 
 /-- the search `for cov in covers(ds, degree) { if all v == 1 { return cov } }` -/
 def firstFlat : List DSymData → Outcome DSymData
